@@ -23,6 +23,48 @@ class BadRepr(object):
         raise RuntimeError('repr raises')
 
 
+class EmptyProblems(Exception):
+    """an exception whose instances are FALSY (a container-like error: len() == 0)"""
+    __module__ = 'builtins'
+
+    def __len__(self):
+        return 0
+
+
+class QuietError(Exception):
+    """an exception whose instances are falsy through __bool__"""
+    __module__ = 'builtins'
+
+    def __bool__(self):
+        return False
+
+
+class NoTruth(object):
+    def __bool__(self):
+        raise TypeError('the truth value of this comparison is undefined')
+
+    def __repr__(self):
+        return '<NoTruth>'
+
+
+class EqObj(object):
+    """a value whose == / != do not return booleans (array- and expression-like objects)"""
+
+    def __init__(self, k):
+        self.k = k
+
+    def __eq__(self, other):
+        return NoTruth()
+
+    def __ne__(self, other):
+        return NoTruth()
+
+    __hash__ = object.__hash__
+
+    def __repr__(self):
+        return 'E%d' % self.k
+
+
 def make_namespace(ns=None):
     import xdoctest
     ns = {} if ns is None else ns
@@ -60,6 +102,16 @@ def make_namespace(ns=None):
         print('back\\slash \\n')
         print('last line %d' % k)
 
+    def empt(k):
+        return EmptyProblems('e%d' % k)
+
+    def quiet(k):
+        return QuietError('u%d' % k)
+
+    def boomq(k):
+        raise QuietError('u%d' % k)
+
+    ns.update({'empt': empt, 'quiet': quiet, 'boomq': boomq, 'eqo': EqObj})
     ns.update({'plong': plong, 'T': T, 't': t, 'pv': pv, 'boom': boom, 'bad': bad, 'badp': badp, 'ext': ext, 'aw': aw, 'deco': (lambda f: f)})
     return ns, T
 
@@ -97,6 +149,9 @@ def statement(kind, k):
         return ['@deco', '@deco', 'def g%d(a=t(%d)):' % (k, k), '    return a'], '', None, False, None
     if kind == 'decorated3':
         return ['@deco', '@deco', '@deco', 'class G%d(object):' % k, '    v = t(%d)' % k], '', None, False, None
+    if kind == 'multicomment':
+        # a bracketed statement one of whose continuation lines is a pure comment
+        return ['y%d = [t(%d),' % (k, k), '      # a remark inside the brackets', '      0]'], '', None, False, None
     if kind == 'gapmulti':
         # a bracketed statement with an EMPTY line inside
         return ['y%d = [t(%d),' % (k, k), '', '      0]'], '', None, False, None
@@ -119,6 +174,14 @@ def statement(kind, k):
         return ['print("r%d"); raise ValueError("m%%d" %% t(%d))' % (k, k)], 'r%d\n' % k, None, False, ('ValueError', 'm%d' % k)
     if kind == 'callraise':
         return ['boom(t(%d))' % k], '', None, True, ('KeyError', "'b%d'" % k)
+    if kind == 'falsyraise':
+        return ['raise empt(t(%d))' % k], '', None, False, ('EmptyProblems', 'e%d' % k)
+    if kind == 'quietraise':
+        return ['print("r%d"); raise quiet(t(%d))' % (k, k)], 'r%d\n' % k, None, False, ('QuietError', 'u%d' % k)
+    if kind == 'callquietraise':
+        return ['boomq(t(%d))' % k], '', None, True, ('QuietError', 'u%d' % k)
+    if kind == 'eqobj':
+        return ['eqo(t(%d))' % k], '', 'E%d' % k, True, None
     if kind == 'emptyraise':
         return ['t(%d); raise TypeError()' % k], '', None, False, ('TypeError', '')
     if kind == 'comment':
@@ -139,7 +202,7 @@ def statement(kind, k):
 
 
 PLAIN_KINDS = ['assign', 'print', 'expr', 'strexpr', 'nlstr', 'csiprint', 'both', 'multi', 'multiexpr', 'multiprint', 'compound',
-               'funcdef', 'tripstr', 'print2']
+               'funcdef', 'tripstr', 'print2', 'eqobj', 'multicomment']
 
 
 class Group(object):
@@ -191,6 +254,8 @@ class Group(object):
             j = min(self.inline_line, len(out) - 1)
             if self.kind == 'tripstr':
                 j = len(out) - 1   # never inside the string literal
+            if self.lines[j].lstrip().startswith('#'):
+                j = 0              # (a directive is only seen at the START of a comment, K-C20-l: never after a remark)
             out[j] = out[j] + '  # %s: ' % self._prefix(self.inline) + ', '.join(self.inline)
         return out
 
